@@ -1,6 +1,7 @@
 --------------------------- MODULE Trace_Evaluator ---------------------------
 (* Flat judgement of C01 records.  kind = "forb" (construct outside the allowed subset; spec = "err" when it sits in an evaluated position), "bomb" (resource
-   family; bomb = TRUE when the specification's size model says the evaluation cannot finish), "fuzz" (arbitrary strings), "table" (allow-list entries).
+   family; bomb = TRUE when the specification's size model says the evaluation cannot finish), "fuzz" (arbitrary strings), "table" (allow-list entries), "tool" (a call of a registered tool whose body raises), "slow" (thousands of individually
+   allowed but costly nodes: only the deadline can stop them).
    Observations: success, raised (an exception escaped to the caller), timeout (did not return within K x timeout_seconds, observed from outside the
    process), effects (number of forbidden effects seen by the audit / profile hooks), agrees (value equals the specified one). *)
 EXTENDS Naturals, Sequences, TLC, Json, IOUtils
@@ -8,7 +9,7 @@ VARIABLES i, pfail
 T == ndJsonDeserialize(IOEnv.TRACE_FILE)
 Clauses == {"ForbiddenFails", "Confined", "NoRaise", "Bounded", "ValueAgrees", "TableClean"}
 \* (a bomb that the engine nevertheless computes within the time and memory bound is not a violation; the harness reports it as drift)
-Holds(c, r) == CASE c = "ForbiddenFails" -> (r.kind = "forb" /\ r.spec = "err") => ~r.success
+Holds(c, r) == CASE c = "ForbiddenFails" -> (r.kind \in {"forb", "tool"} /\ r.spec = "err") => ~r.success
                  [] c = "Confined" -> r.effects = 0
                  [] c = "NoRaise" -> ~r.raised
                  [] c = "Bounded" -> ~r.timeout
